@@ -60,6 +60,13 @@ fn registry() -> Vec<CheckDef>
 			case_timeout_ms: 20_000,
 			level_text: "exhaustive enumeration of bounded derivations of the model grammar (every declaration, statement, type and expression form) and all corpus files; each is parsed, rebuilt, parsed again and rebuilt again by the real first-generation code, and the two trees and the two texts are compared",
 		},
+		CheckDef {
+			id: "C19",
+			drive: checks::c19::drive,
+			work: checks::c19::work,
+			case_timeout_ms: 30_000,
+			level_text: "the real token fuzzer is run under a scripted random number generator owned by the explorer: exhaustive over sequences of consecutive token kinds with the separator decision between them both ways at several positions, and over single and double deviations of every spelling draw inside each token kind over a grid of raw answers; every output is lexed by both real lexers",
+		},
 	]
 }
 
